@@ -37,7 +37,7 @@ CHECKS = {
     "C10": {"level": "exploration", "tests": [hist("TestC10"), hist("TestC10Twin", q=400, t=10000)], "assumptions": COMMON_ASSUMPTIONS},
     "C11": {"level": "exploration", "tests": [hist("TestC11"), hist("TestC11Twin", q=400, t=10000)], "assumptions": COMMON_ASSUMPTIONS},
     "C12": {"level": "exploration", "tests": [hist("TestC12"), hist("TestC12Twin", q=400, t=10000)], "assumptions": COMMON_ASSUMPTIONS},
-    "C13": {"level": "exploration", "tests": [direct("TestC13", q=20000, t=2000000), hist("TestC13History", q=500, t=15000)], "assumptions": COMMON_ASSUMPTIONS},
+    "C13": {"level": "exploration", "tests": [direct("TestC13", q=20000, t=2000000), direct("TestC13Percent", q=50000, t=5000000), hist("TestC13History", q=500, t=15000)], "assumptions": COMMON_ASSUMPTIONS},
     "C14": {"level": "exploration", "tests": [det("TestC14"), direct("TestC14Random", q=20000, t=3000000), hist("TestC14History", q=600, t=15000)], "assumptions": ["the property sentence is restated independently in harness/ref/ref.go"]},
     "C15": {"level": "exploration", "tests": [direct("TestC15Direct", q=3000, t=300000), hist("TestC15History")], "assumptions": COMMON_ASSUMPTIONS},
     "C16": {"level": "exploration", "tests": [det("TestC16Validation"), direct("TestC16ValidationRandom", q=20000, t=3000000), direct("TestC16Decode", q=2000, t=200000),
@@ -46,5 +46,5 @@ CHECKS = {
     "C17": {"level": "exploration", "tests": [direct("TestC17", q=3000, t=400000)], "assumptions": COMMON_ASSUMPTIONS},
     "C18": {"level": "fault_enumeration", "tests": [direct("TestC18", q=60, t=2500), direct("TestC18Consecutive", q=300, t=30000), hist("TestC18History", q=500, t=15000)], "assumptions": COMMON_ASSUMPTIONS},
     "C19": {"level": "fault_enumeration", "tests": [direct("TestC19Direct", q=3000, t=400000), hist("TestC19History")], "assumptions": COMMON_ASSUMPTIONS},
-    "C20": {"level": "fault_enumeration", "tests": [hist("TestC20"), hist("TestC20Enum", q=100, t=1500, steps=20, tsteps=25)], "assumptions": COMMON_ASSUMPTIONS},
+    "C20": {"level": "fault_enumeration", "tests": [hist("TestC20"), hist("TestC20Dry", q=600, t=15000), hist("TestC20Enum", q=100, t=1500, steps=20, tsteps=25)], "assumptions": COMMON_ASSUMPTIONS},
 }
